@@ -62,6 +62,8 @@ func c06SrcRule(g *Gen) string {
 		"@@||a.org^$genericblock,important", "@@||a.org^$urlblock,important", "@@||a.org^$urlblock,genericblock",
 		"@@||a.org^", "||a.org^", "@@||a.org^$stealth", "@@||a.org^$jsinject", "@@||a.org^$content",
 		"@@||a.org^$urlblock,domain=a.org", "@@||a.org^$genericblock,domain=a.org",
+		// case-sensitive referrer-level exceptions: they match one spelling of the referrer only
+		"@@||a.org/Page$urlblock,match-case", "@@||a.org/page$genericblock,match-case", "@@||a.org/Page$document,match-case",
 	})
 	if g.Chance(1, 7) {
 		t += ",badfilter"
@@ -276,6 +278,17 @@ func init() {
 					selfSrc := rules.NewRequest("http://example.org/", "", rules.TypeDocument)
 					m4, m5 := ne.MatchAll(selfReq), ne.MatchAll(selfSrc)
 					v4 := classOf(e.MatchRequest(selfReq).GetBasicResult())
+					// the verdict is a function of the rules and THIS request and referrer: the same engine, asked for pages
+					// whose referrers differ only in letter case (or not at all), answers like a fresh engine
+					for _, src := range []string{"http://a.org/Page", "http://a.org/page", "http://a.org/Page", "http://A.org/page", "http://a.org/page"} {
+						rq := rules.NewRequest("http://example.org/x.js", src, rules.TypeScript)
+						got := classOf(e.MatchRequest(rq).GetBasicResult())
+						want := classOf(urlfilter.NewEngine(mk(a, b)).MatchRequest(rules.NewRequest("http://example.org/x.js", src, rules.TypeScript)).GetBasicResult())
+						if got != want {
+							v4 += "!VERDICT-DEPENDS-ON-EARLIER-REQUESTS:referrer=" + src
+							break
+						}
+					}
 					return v1 + ";" + v2 + ";" + v3 + ";" + v4, ruleTexts(m1) + "\t" + ruleTexts(m2) + "\t" + ruleTexts(dres.NetworkRules) + "\t" + ruleTexts(m4) + "\t" + ruleTexts(m5)
 				}
 				obs, oracle := run(l1, l2)
